@@ -13,6 +13,6 @@ TNext == /\ l <= Len(Tr) /\ l' = l + 1
                  /\ LET fin == Run(FsOf(r), r.fmt, InitSt(FsOf(r), r.root, r.search), 2000) IN
                     /\ fin.done
                     /\ (r.api \in {"src", "cli"} => r.out = MetaText(r.root, r.fs[r.root]) \o Render(fin.out))
-                    /\ (r.api # "cli" => r.manifest = fin.manifest)                  \* each referenced file exactly once, in order of first reference
+                    /\ (r.api # "cli" => [i \in 1 .. Len(r.manifest) |-> FsKey(r.manifest[i])] = [i \in 1 .. Len(fin.manifest) |-> FsKey(fin.manifest[i])])                  \* each referenced file exactly once, in order of first reference
 TraceAccepted == TLCGet("stats").diameter = Len(Tr) + 1
 =============================================================================
